@@ -280,7 +280,7 @@ func cloneProgs(in [][]opSpec, fkind, delta int) [][]opSpec {
 
 func runC30(t *testing.T, r *simkit.Run) {
 	tp := r.Tape
-	exhaustive := tp.Weighted([]int{2, 1}) == 1
+	exhaustive := tp.Weighted([]int{3, 1}) == 1
 	simkit.Bubble(t, r, func() {
 		// fake time starts in 2000; Snowflake's epoch is in 2010
 		time.Sleep(time.Until(time.UnixMilli(sfEpochMS)) + 5*365*24*time.Hour + time.Duration(tp.Intn(1000))*time.Millisecond)
@@ -307,14 +307,18 @@ func runExhaustive(r *simkit.Run, cur **exec) {
 	const prefixLen = 3
 	prefix := make([]int, prefixLen)
 	for i := range prefix {
-		prefix[i] = tp.Intn(3)
+		prefix[i] = tp.Intn(6) // reduced modulo the 2 or 3 options available: uniform for both
 	}
 	r.Config = map[string]any{"mode": "exhaustive", "shape": shape, "fkind": fkind, "delta": delta, "clock": clock, "node": node, "prefix": fmt.Sprint(prefix)}
 	type point struct{ chosen, n int }
 	var stack []point
 	execs, overlap := 0, false
 	prefixTaken := ""
+	began := time.Now()
 	for {
+		// every execution starts at the same clock phase (a whole second), so an
+		// execution is a function of its decisions only and the search can replay prefixes
+		time.Sleep(time.Until(time.Now().Truncate(time.Second).Add(time.Second)))
 		e, err := newExec(r, node, cloneProgs(exhaustivePrograms[shape], fkind, delta))
 		if err != nil {
 			r.Infra("allocator: %v", err)
@@ -388,9 +392,8 @@ func runExhaustive(r *simkit.Run, cur **exec) {
 			r.Probe("exh.truncated")
 			break
 		}
-		time.Sleep(time.Millisecond)
 	}
-	r.SimTime += time.Duration(execs) * time.Millisecond
+	r.SimTime += time.Since(began)
 	r.Probe(fmt.Sprintf("exh.chunk.shape%d.prefix%s", shape, prefixTaken))
 	r.ProbeN("exh.executions", execs)
 	r.Nontrivial = overlap
